@@ -3,6 +3,7 @@ package conc
 import (
 	"fmt"
 	"io"
+	"regexp"
 	"sort"
 	"strings"
 	"sync"
@@ -27,13 +28,17 @@ func (o *Out) Stat(k string, n int) {
 	o.stats[k] += n
 	o.mu.Unlock()
 }
-func (o *Out) Violation(d string) {
+
+// Violation prints a violation descriptor once; it returns true the first time.
+func (o *Out) Violation(d string) bool {
 	o.mu.Lock()
+	defer o.mu.Unlock()
 	if !o.viol[d] {
 		o.viol[d] = true
 		fmt.Fprintf(o.W, "violation %s\n", d)
+		return true
 	}
-	o.mu.Unlock()
+	return false
 }
 func (o *Out) Note(s string) {
 	o.mu.Lock()
@@ -63,10 +68,12 @@ func guard(f func() string) (res string) {
 	return f()
 }
 
-// SeqProbe runs every operation once (and a second time) on a fresh Env, sequentially. Operations that
-// panic sequentially are sequential defects (owned by C16/C20/C09-C11), not concurrency defects.
-func SeqProbe(ops []Op) map[string]bool {
-	bad := map[string]bool{}
+// SeqProbe runs every operation a few times on a fresh Env, sequentially, each call under a watchdog.
+// Operations that panic sequentially are sequential defects (owned by C16/C20/C09-C11), not concurrency
+// defects. An operation that does not return even sequentially (a call that re-acquires its own lock) is
+// printed as `blocked T.M`; probing stops there because the object's lock is lost.
+func SeqProbe(ops []Op, out *Out, timeout time.Duration) (bad map[string]bool, blocked string) {
+	bad = map[string]bool{}
 	e := NewEnv()
 	for rep := 0; rep < 3; rep++ {
 		for _, o := range ops {
@@ -75,13 +82,24 @@ func SeqProbe(ops []Op) map[string]bool {
 				continue
 			}
 			for k := 0; k < 6; k++ {
-				if guard(func() string { return o.Call(e, rep, k) }) == "panic" {
-					bad[o.Name()] = true
+				res := make(chan string, 1)
+				go func() { res <- guard(func() string { return o.Call(e, rep, k) }) }()
+				select {
+				case r := <-res:
+					if r == "panic" {
+						bad[o.Name()] = true
+					}
+				case <-time.After(2 * timeout):
+					if out != nil {
+						fmt.Fprintf(out.W, "blocked %s\n", o.Name())
+						out.Note("the call blocks even without any concurrency (sequential probe, call #" + fmt.Sprint(rep*6+k) + ")")
+					}
+					return bad, o.Name()
 				}
 			}
 		}
 	}
-	return bad
+	return bad, ""
 }
 
 func skipOp(e *Env, o Op) bool { return e.Target(o.Type) == nil && o.Type != "CachedPubkey" }
@@ -180,7 +198,9 @@ func Deadlock(o Op, timeout time.Duration, out *Out) {
 		out.Note("skip " + o.Name() + ": constructor failed")
 		return
 	}
-	ok := runWorkers(e, []Op{o}, [][]int{{0}}, 4, timeout, out, nil)
+	// the same arguments twice in a row, so that duplicate / already-present paths are taken as well
+	rep := Op{Type: o.Type, Method: o.Method, Call: func(e *Env, g, k int) string { return o.Call(e, g, k/2) }}
+	ok := runWorkers(e, []Op{rep}, [][]int{{0}}, 8, timeout, out, nil)
 	if ok {
 		fmt.Fprintf(out.W, "returned %s\n", o.Name())
 	}
@@ -195,8 +215,18 @@ func Pair(a, b Op, prefill []Op, iters int, timeout time.Duration, out *Out) {
 	}
 	// put something into the object first, sequentially, so that both operations have state to touch
 	for _, p := range prefill {
-		for k := 0; k < 8; k++ {
-			guard(func() string { return p.Call(e, 0, k) })
+		done := make(chan struct{})
+		go func() {
+			for k := 0; k < 8; k++ {
+				guard(func() string { return p.Call(e, 0, k) })
+			}
+			close(done)
+		}()
+		select {
+		case <-done:
+		case <-time.After(2 * timeout):
+			fmt.Fprintf(out.W, "blocked %s\n", p.Name())
+			return
 		}
 	}
 	ops := []Op{a, b}
@@ -304,7 +334,10 @@ func DiscoverOps(types []string) []Op {
 func StressRace(comp string, goroutines, iters int, seed int64, timeout time.Duration, out *Out) {
 	types := Components[comp]
 	ops := opsOf(types, DiscoverOps(types))
-	bad := SeqProbe(ops)
+	bad, blk := SeqProbe(ops, out, timeout)
+	if blk != "" {
+		return
+	}
 	var live []Op
 	for _, o := range ops {
 		if bad[o.Name()] {
@@ -346,6 +379,8 @@ func StressRace(comp string, goroutines, iters int, seed int64, timeout time.Dur
 		fmt.Fprintf(out.W, "returned stress-race %s\n", comp)
 	}
 }
+
+var itemRe = regexp.MustCompile(`(item|block|aggregate|index)\s+\d+`)
 
 type rec struct {
 	op         string
@@ -450,7 +485,10 @@ func runLin(goroutines int, timeout time.Duration, out *Out, body func(g int, se
 }
 
 func linPubkey(goroutines, iters int, timeout time.Duration, out *Out) {
-	probe := SeqProbe(opsOf(Components["pubkey"], nil))
+	probe, blk := SeqProbe(opsOf(Components["pubkey"], nil), out, timeout)
+	if blk != "" {
+		return
+	}
 	if probe["PubkeyCache.AddValidator"] || probe["PubkeyCache.Pubkey"] {
 		out.Note("skip lin pubkey: sequential panic")
 		return
@@ -515,7 +553,9 @@ func linPubkey(goroutines, iters int, timeout time.Duration, out *Out) {
 				} else if rc.op == "add" {
 					kind = "nonlin"
 				}
-				out.Violation(fmt.Sprintf("%s: %s returned %s for index %d while %d goroutines add indices 0..%d in order (%s)", kind, name, rc.res, rc.arg, goroutines, NKeys-1, bad))
+				if out.Violation(fmt.Sprintf("%s: %s returned %s while %d goroutines add indices 0..%d in order (%s)", kind, name, rc.res, goroutines, NKeys-1, bad)) {
+					out.Note(fmt.Sprintf("first occurrence: round %d goroutine %d index %d", r, rc.g, rc.arg))
+				}
 			}
 		}
 	}
@@ -531,7 +571,10 @@ type setPool struct {
 }
 
 func linPools(goroutines, iters int, timeout time.Duration, out *Out) {
-	probe := SeqProbe(opsOf(Components["pools"], nil))
+	probe, blk := SeqProbe(opsOf(Components["pools"], nil), out, timeout)
+	if blk != "" {
+		return
+	}
 	pools := []setPool{
 		{"VoluntaryExitPool", "AddVoluntaryExit", "All"},
 		{"AttesterSlashingPool", "AddAttesterSlashing", "All"},
@@ -594,7 +637,13 @@ func linPools(goroutines, iters int, timeout time.Duration, out *Out) {
 	}
 	recs := h.all()
 	viol := 0
-	report := func(d string) { viol++; out.Violation(d) }
+	report := func(d string) {
+		viol++
+		canon := itemRe.ReplaceAllString(d, "$1 N")
+		if out.Violation(canon) {
+			out.Note("first occurrence: " + d)
+		}
+	}
 	for _, p := range pools {
 		okAdds := map[int][]rec{}
 		adds := map[int][]rec{}
@@ -762,7 +811,13 @@ func linFC(goroutines, iters int, timeout time.Duration, out *Out) {
 	}
 	recs := h.all()
 	viol := 0
-	report := func(d string) { viol++; out.Violation(d) }
+	report := func(d string) {
+		viol++
+		canon := itemRe.ReplaceAllString(d, "$1 N")
+		if out.Violation(canon) {
+			out.Note("first occurrence: " + d)
+		}
+	}
 	// monotone facts: a block is known to every call that starts after its ProcessBlock returned true, and
 	// unknown to every call that ends before its ProcessBlock began
 	ins := map[int]rec{}
